@@ -250,6 +250,8 @@ var c20Hostile = []string{
 	`"!binary:"`, `"!binary:A"`, `"!binary:===="`, `"!binary:AAAA"`, `"!bogus"`, `"!null"`, `"!empty"`, `"hash"`,
 	`"` + strings.Repeat("A", 100000) + `"`, `"\u0000"`, `"😂"`, `"CN=x,CN="`, `"256.1.1.300"`, `"1.2.3"`,
 	`null`, `[]`, `{}`, `true`, `{"a":{"b":[1]}}`, `[[]]`, `["x"]`, `"9223372036854772807y"`, `"10.0.0.256"`, `"10.0.0.-1"`, `"18446744073709551616d"`, `"9223372036854775807m"`,
+	// addresses that a general-purpose address parser accepts and a dotted quad is not
+	`"::1"`, `"2001:db8::1"`, `"::ffff:10.0.0.1"`, `"10.0.0.1/24"`,
 	// subject strings around the '#hex' value form and malformed pairs
 	`"10.0.0.1.7"`, `"1.2.3.4.5.6.7.8.9.10.11.12.13.14.15.16.17"`, `"..."`, `"1..2.3"`,
 	`"CN=#"`, `"CN=#0"`, `"CN=#13"`, `"O=#1303616263, CN=#"`, `"=x"`, `"CN=a=b"`, `"CN=#zz"`,
